@@ -13,7 +13,7 @@ MAX_REPLAYS = 12
 
 def load_known():
     path = os.path.join(boot.HOME, "known_findings.json")
-    if not os.path.exists(path):
+    if not os.path.exists(path) or os.environ.get("VERIF_NO_KNOWN"):  # VERIF_NO_KNOWN=1: diagnosis only (shows witnesses)
         return {"open": [], "fixed": []}
     with open(path) as f:
         return json.load(f)
